@@ -145,12 +145,8 @@ impl<'a> super::Builder<'a, Commit> for Builder<'a> {
     }
 
     fn finish(self) -> Result<Commit, Error> {
-        if self.confirmed && self.persist_id.is_some() {
-            return Err(Error::IncompatibleOperationParameters {
-                operation_name: Commit::NAME,
-                parameters: vec!["confirmed = true", "persist-id"],
-            });
-        }
+        // `<confirmed/>` together with `<persist-id>` is a follow-up confirmed commit
+        // (RFC 6241 section 8.4.5.1), not a contradiction.
         if !self.confirmed && self.persist.is_some() {
             return Err(Error::IncompatibleOperationParameters {
                 operation_name: Commit::NAME,
